@@ -153,6 +153,9 @@ func (p *Prov) val(v ssa.Value) []Origin {
 	case *ssa.Slice:
 		return p.val(x.X)
 	case *ssa.Parameter:
+		if a := literalArg(x); a != nil {
+			return p.val(a)
+		}
 		return []Origin{{Kind: KParam, V: x}}
 	case *ssa.FreeVar:
 		if b := freeVarBinding(x); b != nil {
@@ -271,6 +274,63 @@ func allocPath(fa *ssa.FieldAddr) (*ssa.Alloc, []int) {
 
 // freeVarBinding finds the value bound to a free variable at the (unique)
 // MakeClosure site of its function.
+// literalArg resolves a parameter of a function literal that is invoked at
+// exactly one place and used nowhere else (`go func(x T) {...}(v)`, the same
+// with defer, or an immediate call) to the argument passed there.
+func literalArg(par *ssa.Parameter) ssa.Value {
+	fn := par.Parent()
+	parent := fn.Parent()
+	if parent == nil {
+		return nil
+	}
+	idx := -1
+	for i, q := range fn.Params {
+		if q == par {
+			idx = i
+		}
+	}
+	if idx < 0 {
+		return nil
+	}
+	var arg ssa.Value
+	sites, others := 0, 0
+	isFn := func(v ssa.Value) bool {
+		if v == ssa.Value(fn) {
+			return true
+		}
+		mc, ok := v.(*ssa.MakeClosure)
+		return ok && mc.Fn == ssa.Value(fn)
+	}
+	WithAnon(parent, func(g *ssa.Function) {
+		AllInstrs(g, func(_ Node, in ssa.Instruction) {
+			if cc := CallOf(in); cc != nil && isFn(cc.Value) {
+				sites++
+				if idx < len(cc.Args) {
+					arg = cc.Args[idx]
+				}
+				for _, a := range cc.Args {
+					if isFn(a) {
+						others++
+					}
+				}
+				return
+			}
+			if _, isMC := in.(*ssa.MakeClosure); isMC {
+				return
+			}
+			for _, op := range in.Operands(nil) {
+				if *op != nil && isFn(*op) {
+					others++
+				}
+			}
+		})
+	})
+	if sites != 1 || others != 0 || arg == nil {
+		return nil
+	}
+	return arg
+}
+
 func freeVarBinding(fv *ssa.FreeVar) ssa.Value {
 	fn := fv.Parent()
 	parent := fn.Parent()
